@@ -483,6 +483,25 @@ class Specs:
         out.append(Pair("E-rem", "rem_euclid", L, ps, "Option<%s>" % L,
                         "{ if a1.to_bits() == 0 { return None; } Some(a0.rem_euclid(a1)) }",
                         "{ if a1.to_bits() == 0 { return None; } Some(%s(a0.to_bits().wrapping_rem_euclid(a1.to_bits()))) }" % fb))
+        # remainders by a primitive integer n: the integer is the fixed-point number n * 2^f, which need not fit the
+        # type; computed exactly in a 128-bit integer (widths up to 64: |n * 2^f| <= 2^127)
+        if lay.width <= 64:
+            big = "i128" if lay.signed else "u128"
+            psi = "a0: %s, a1: %s" % (L, ity)
+            d = "((a1 as %s) << %d)" % (big, lay.frac)
+            r = "((a0.to_bits() as %s).wrapping_rem(%s))" % (big, d)
+            re_ = "((a0.to_bits() as %s).wrapping_rem_euclid(%s))" % (big, d)
+            out.append(Pair("E-rem", "checked_rem_int", L, psi, "Option<%s>" % L, "a0.checked_rem_int(a1)",
+                            "{ if a1 == 0 { return None; } Some(%s(%s as %s)) }" % (fb, r, ity)))
+            out.append(Pair("E-rem", "op_rem_int", L, psi, "Option<%s>" % L,
+                            "{ if a1 == 0 { return None; } Some(a0 % a1) }",
+                            "{ if a1 == 0 { return None; } Some(%s(%s as %s)) }" % (fb, r, ity)))
+            nofit = "(r as %s as %s) != r" % (ity, big)
+            out.append(Pair("E-rem", "checked_rem_euclid_int", L, psi, "Option<%s>" % L, "a0.checked_rem_euclid_int(a1)",
+                            "{ if a1 == 0 { return None; } let r = %s; if %s { None } else { Some(%s(r as %s)) } }" % (re_, nofit, fb, ity)))
+            out.append(Pair("E-rem", "overflowing_rem_euclid_int", L, psi, "Option<(%s, bool)>" % L,
+                            "{ if a1 == 0 { return None; } Some(a0.overflowing_rem_euclid_int(a1)) }",
+                            "{ if a1 == 0 { return None; } let r = %s; Some((%s(r as %s), %s)) }" % (re_, fb, ity, nofit)))
         return out
 
     # ------------------------------------------------------------------ E-div
@@ -562,6 +581,29 @@ class Specs:
                             "a0.to_le_bytes()", "a0.to_be_bytes()", expect="different"))
         return out
 
+    # ------------------------------------------------------------------ controls
+    def controls2(self, fam):
+        """pairs that differ in exactly the respects the term normal form abstracts from (comparison width and
+        direction, strictness, signedness, range bounds, guards, operand roles): each must compare `different`"""
+        C = [
+            ("strict", "a0: i32", "bool", "a0 < 16", "a0 <= 16"),
+            ("signedness", "a0: i32", "bool", "a0 < 5", "(a0 as u32) < 5"),
+            ("range_bound", "a0: i32", "bool", "a0 >= -8 && a0 <= 7", "a0 >= -8 && a0 < 7"),
+            ("range_low", "a0: i32", "bool", "a0 >= -8 && a0 <= 7", "a0 > -8 && a0 <= 7"),
+            ("guard", "a0: i32", "u8", "if a0 < 0 { 1 } else { 2 }", "if a0 <= 0 { 1 } else { 2 }"),
+            ("arms", "a0: i32", "u8", "if a0 < 0 { 1 } else { 2 }", "if a0 < 0 { 2 } else { 1 }"),
+            ("scale", "a0: i8, a1: i8", "bool", "((a0 as i128) << 4) < (a1 as i128)", "((a0 as i128) << 3) < (a1 as i128)"),
+            ("roles", "a0: i8, a1: i8", "bool", "(a0 as i32) < (a1 as i32)", "(a1 as i32) < (a0 as i32)"),
+            ("eq_ne", "a0: i16, a1: i16", "bool", "a0 == a1", "a0 != a1"),
+            ("flag", "a0: i16", "(i8, bool)", "(a0 as i8, a0 > 7)", "(a0 as i8, a0 > 8)"),
+            ("unsigned_wrap", "a0: u8", "bool", "a0.wrapping_add(3) < 10", "a0 < 7"),
+            ("ext", "a0: i8", "bool", "(a0 as i32) < 100", "(a0 as u8 as i32) < 100"),
+            ("two_guards", "a0: i32, a1: i32", "bool", "if a0 < 0 || a1 < 0 { false } else { a0 < a1 }",
+             "if a0 < 0 { false } else { a0 < a1 }"),
+            ("option", "a0: i32", "Option<i32>", "if a0 < 3 { None } else { Some(a0) }", "if a0 < 4 { None } else { Some(a0) }"),
+        ]
+        return [Pair(fam, "CONTROL2_" + n, "-", ps, ret, a, b, expect="different") for (n, ps, ret, a, b) in C]
+
     # ------------------------------------------------------------------ E-cmp
     def cmp_same(self, lay):
         out = []
@@ -605,6 +647,15 @@ class Specs:
                         "<%s as core::cmp::PartialOrd<%s>>::gt(a1, a0)" % (rt, lt)))
         out.append(Pair("E-cmpx", "partial_cmp_vs_mirrored", item, ps, "Option<%s>" % O,
                         pc, "<%s as core::cmp::PartialOrd<%s>>::partial_cmp(a1, a0).map(%s::reverse)" % (rt, lt, O)))
+        # the remaining operators against the impl with the operands exchanged (a separate macro arm for integers
+        # and floats): a <= b is b >= a, a >= b is b <= a, a > b is b < a, a == b is b == a
+        for m, mm in (("le", "ge"), ("ge", "le"), ("gt", "lt")):
+            out.append(Pair("E-cmpx", "%s_vs_mirrored_%s" % (m, mm), item, ps, "bool",
+                            "<%s as core::cmp::PartialOrd<%s>>::%s(a0, a1)" % (lt, rt, m),
+                            "<%s as core::cmp::PartialOrd<%s>>::%s(a1, a0)" % (rt, lt, mm)))
+        out.append(Pair("E-cmpx", "eq_vs_mirrored_eq", item, ps, "bool",
+                        "<%s as core::cmp::PartialEq<%s>>::eq(a0, a1)" % (lt, rt),
+                        "<%s as core::cmp::PartialEq<%s>>::eq(a1, a0)" % (rt, lt)))
         # exact ordering by definition: both bit patterns aligned to the larger fraction-bit count in a common
         # 128-bit integer (only where both aligned operands fit)
         va, vb = _num_view(lt), _num_view(rt)
